@@ -312,6 +312,46 @@ func (c *Conn) clientTLS() error {
 // reply to STARTTLS has been received.
 func (c *Conn) StartTLSClient() error { return c.clientTLS() }
 
+// ClientConn returns the net.Conn a real client should use on the harness
+// side: the TLS connection when TLS is active, else the raw pipe end. The
+// harness's own decrypting reader must not be running (implicit TLS servers
+// started with DialForClient).
+func (c *Conn) ClientConn() net.Conn {
+	if c.tlsC != nil {
+		return c.tlsC
+	}
+	return c.Raw
+}
+
+// DialForClient opens a connection for use by a real go-smtp client: with
+// implicit TLS the handshake is done but no reader goroutine consumes the
+// stream.
+func (s *Server) DialForClient() (*Conn, error) {
+	if !s.Cfg.NoTracer {
+		installTracer()
+	}
+	cl, sv := pipe.New()
+	c := &Conn{Srv: s, Raw: cl, SrvEnd: sv}
+	regMu.Lock()
+	byEnd[sv] = c
+	regMu.Unlock()
+	if s.Cfg.ImplicitTLS {
+		s.L.DialConn(tls.Server(sv, s.S.TLSConfig))
+		_, pool := TLSMaterial()
+		tc := tls.Client(c.Raw, &tls.Config{RootCAs: pool, ServerName: "verif.test"})
+		c.Raw.SetDeadline(time.Now().Add(5 * time.Second))
+		err := tc.Handshake()
+		c.Raw.SetDeadline(time.Time{})
+		if err != nil {
+			return c, err
+		}
+		c.tlsC = tc
+		return c, nil
+	}
+	s.L.DialConn(sv)
+	return c, nil
+}
+
 // IsTLS reports whether the harness side speaks TLS.
 func (c *Conn) IsTLS() bool { return c.tlsC != nil }
 
